@@ -81,6 +81,33 @@ def _node_attr_names(db, f: FuncInfo, param: str, seen=None, depth=0) -> set[str
     return out
 
 
+def cache_key_attrs(ctx) -> set[str] | None:
+    """Node attributes the arguments of the ``compute_cache_key`` call in ``check_cache`` depend on
+    (through reaching definitions and the routing-configuration helper); None when the call is not found."""
+    db = ctx.db
+    cc = db.func("runners._shared.caching.check_cache")
+    cfg = ctx.cfg(cc)
+    rd = reaching_defs(cfg)
+    kc = [(n, c) for n in cfg.nodes for c in cfg.calls_at(n) if "compute_cache_key" in call_names(db, c, cc)]
+    if len(kc) != 1:
+        return None
+    n, c = kc[0]
+    used: set[str] = set()
+    for a in c.args:
+        for x in ast.walk(a):
+            if isinstance(x, ast.Attribute) and isinstance(x.value, ast.Name) and x.value.id == "node":
+                used.add(x.attr)
+            if isinstance(x, ast.Name):
+                for d, v in defs_reaching(cfg, rd, n, x.id):
+                    if v is not None and not isinstance(v, (ast.FunctionDef, ast.ExceptHandler)):
+                        for y in ast.walk(v):
+                            if isinstance(y, ast.Attribute) and isinstance(y.value, ast.Name) and y.value.id == "node":
+                                used.add(y.attr)
+                            if isinstance(y, ast.Call) and "_routing_config" in call_names(db, y, cc):
+                                used |= _node_attr_names(db, db.func("runners._shared.caching._routing_config"), "node")
+    return used
+
+
 def run(ctx) -> None:
     db, rep = ctx.db, ctx.rep
     rep.rule("C09.R1", "cache key covers every node attribute the executor consults", floor=4)
@@ -135,26 +162,10 @@ def run(ctx) -> None:
             f"executor reads {sorted(d_exec)}; all in the key material {sorted(d_key)} or covered" if not uncovered else f"executor consults node.{', node.'.join(uncovered)} but the cache key does not depend on it: two nodes differing only there share entries (a hit serves another node's payload)",
         )
     # the identity and inputs actually flow into compute_cache_key
-    cfg = ctx.cfg(cc)
-    rd = reaching_defs(cfg)
-    kc = [(n, c) for n in cfg.nodes for c in cfg.calls_at(n) if "compute_cache_key" in call_names(db, c, cc)]
-    ok = len(kc) == 1
+    used = cache_key_attrs(ctx)
+    ok = used is not None
     why = "compute_cache_key call not found"
     if ok:
-        n, c = kc[0]
-        used = set()
-        for a in c.args:
-            for x in ast.walk(a):
-                if isinstance(x, ast.Attribute) and isinstance(x.value, ast.Name) and x.value.id == "node":
-                    used.add(x.attr)
-                if isinstance(x, ast.Name):
-                    for d, v in defs_reaching(cfg, rd, n, x.id):
-                        if v is not None and not isinstance(v, (ast.FunctionDef, ast.ExceptHandler)):
-                            for y in ast.walk(v):
-                                if isinstance(y, ast.Attribute) and isinstance(y.value, ast.Name) and y.value.id == "node":
-                                    used.add(y.attr)
-                                if isinstance(y, ast.Call) and "_routing_config" in call_names(db, y, cc):
-                                    used |= _node_attr_names(db, db.func("runners._shared.caching._routing_config"), "node")
         need = {"definition_hash", "data_outputs", "outputs", "map_inputs_to_params"}
         ok = need <= used
         why = f"key = f(definition hash, node type, output names, routing configuration, arguments under parameter names): uses {sorted(used)}" if ok else f"the arguments of compute_cache_key no longer depend on {sorted(need - used)}"
